@@ -149,7 +149,16 @@ def _go_out_of_service_on_empty(
     #   to out of service.
     # - report stranded passengers if we're servicing a trip when this happens.
     next_state = OutOfService.build(vehicle_id)
-    return next_state.enter(sim, env)
+    vehicle = sim.vehicles.get(vehicle_id)
+    if vehicle is None:
+        return next_state.enter(sim, env)
+    # leave the interrupted activity first so that what it holds is released
+    # (e.g. the request a DispatchTrip was assigned to is offered to the dispatcher again)
+    exit_error, exit_sim = vehicle.vehicle_state.exit(next_state, sim, env)
+    if exit_error is not None:
+        return exit_error, None
+    # an activity that refuses to be interrupted still cannot go on without energy
+    return next_state.enter(exit_sim if exit_sim is not None else sim, env)
 
 
 def move(
